@@ -220,6 +220,26 @@ pub fn acknack_msg(reader: GUID, writer: GUID, base: i64, set: &[i64], count: i3
   to_bytes(&m)
 }
 
+pub fn nackfrag_msg(reader: GUID, writer: GUID, sn: i64, frags: &[u32], count: i32) -> Vec<u8> {
+  use crate::structure::sequence_number::FragmentNumberSet;
+  let fs: BTreeSet<FragmentNumber> = frags.iter().map(|x| FragmentNumber::new(*x)).collect();
+  let base = frags.iter().min().copied().unwrap_or(1);
+  let nf = NackFrag {
+    reader_id: reader.entity_id,
+    writer_id: writer.entity_id,
+    writer_sn: SequenceNumber::new(sn),
+    fragment_number_state: FragmentNumberSet::from_base_and_set(FragmentNumber::new(base), &fs),
+    count,
+  };
+  let mut m = Message::new(Header::new(reader.prefix));
+  m.add_submessage(
+    InfoDestination { guid_prefix: writer.prefix }
+      .create_submessage(BitFlags::from_flag(INFODESTINATION_Flags::Endianness)),
+  );
+  m.add_submessage(nf.create_submessage(BitFlags::from_flag(NACKFRAG_Flags::Endianness)));
+  to_bytes(&m)
+}
+
 /// Plain-data view of a parsed datagram, for oracles outside the crate.
 #[derive(Debug, Clone, PartialEq, Eq, serde::Serialize)]
 pub enum Sub {
